@@ -17,9 +17,12 @@ import (
 	"encoding/json"
 	"fmt"
 	"os"
+	"reflect"
+	"sort"
 	"strings"
 	"sync"
 	"time"
+	"unsafe"
 
 	"golang.org/x/net/idna"
 )
@@ -225,6 +228,7 @@ func Known(id string, inClass bool) {
 // data-race freedom). Natively f runs in four goroutines at once, so that `go test -race`
 // confirms the race.
 func Concurrently(f func()) {
+	before := fingerprintGlobals()
 	var wg sync.WaitGroup
 	for i := 0; i < 4; i++ {
 		wg.Add(1)
@@ -234,6 +238,158 @@ func Concurrently(f func()) {
 		}()
 	}
 	wg.Wait()
+	after := fingerprintGlobals()
+	for i := range before {
+		if i < len(after) && before[i] != after[i] {
+			Fail("package-level state was modified after initialisation: " + globals[i].Name)
+		}
+	}
+}
+
+// ---- fingerprint of the package-level state of the packages under test (native only) ----
+//
+// The native replay build adds one generated file per package that registers the address of every
+// package-level variable (the list is read from the package's current source). The fingerprint is a
+// deep, address-free rendering of everything reachable from them inside the module (and the bitset
+// library its tables are made of); values of other packages' types are opaque, except sync.Map,
+// whose entries are listed. Used to confirm "no package-level table is modified after
+// initialisation" for stores that the race detector cannot see because they are synchronised.
+
+type Global struct {
+	Name string
+	Ptr  interface{}
+}
+
+var globals []Global
+
+func RegisterGlobals(pkg string, gs []Global) {
+	for _, g := range gs {
+		g.Name = pkg + "." + g.Name
+		globals = append(globals, g)
+	}
+}
+
+func fingerprintGlobals() []string {
+	out := make([]string, len(globals))
+	for i, g := range globals {
+		var b strings.Builder
+		fpValue(&b, reflect.ValueOf(g.Ptr), 0, map[uintptr]bool{})
+		out[i] = b.String()
+	}
+	return out
+}
+
+func fpOwnType(t reflect.Type) bool {
+	p := t.PkgPath()
+	return p == "" || strings.HasPrefix(p, "github.com/nlnwa/whatwg-url") || strings.HasPrefix(p, "github.com/bits-and-blooms/bitset")
+}
+
+var syncMapType = reflect.TypeOf(sync.Map{})
+
+func fpValue(b *strings.Builder, v reflect.Value, depth int, seen map[uintptr]bool) {
+	if depth > 14 || b.Len() > 1<<20 {
+		b.WriteString("<deep>")
+		return
+	}
+	if !v.IsValid() {
+		b.WriteString("<invalid>")
+		return
+	}
+	switch v.Kind() {
+	case reflect.Bool:
+		fmt.Fprintf(b, "%v", v.Bool())
+	case reflect.Int, reflect.Int8, reflect.Int16, reflect.Int32, reflect.Int64:
+		fmt.Fprintf(b, "%d", v.Int())
+	case reflect.Uint, reflect.Uint8, reflect.Uint16, reflect.Uint32, reflect.Uint64:
+		fmt.Fprintf(b, "%d", v.Uint())
+	case reflect.Float32, reflect.Float64:
+		fmt.Fprintf(b, "%g", v.Float())
+	case reflect.String:
+		fmt.Fprintf(b, "%q", v.String())
+	case reflect.Ptr:
+		if v.IsNil() {
+			b.WriteString("nil")
+			return
+		}
+		p := v.Pointer()
+		if seen[p] {
+			b.WriteString("<seen>")
+			return
+		}
+		seen[p] = true
+		b.WriteString("&")
+		fpValue(b, v.Elem(), depth+1, seen)
+	case reflect.Interface:
+		if v.IsNil() {
+			b.WriteString("nil")
+			return
+		}
+		b.WriteString(v.Elem().Type().String())
+		b.WriteString(":")
+		fpValue(b, v.Elem(), depth+1, seen)
+	case reflect.Slice:
+		if v.IsNil() {
+			b.WriteString("nil[]")
+			return
+		}
+		fallthrough
+	case reflect.Array:
+		fmt.Fprintf(b, "[%d:", v.Len())
+		for i := 0; i < v.Len(); i++ {
+			fpValue(b, v.Index(i), depth+1, seen)
+			b.WriteString(",")
+		}
+		b.WriteString("]")
+	case reflect.Map:
+		if v.IsNil() {
+			b.WriteString("nilmap")
+			return
+		}
+		var ents []string
+		it := v.MapRange()
+		for it.Next() {
+			var e strings.Builder
+			fpValue(&e, it.Key(), depth+1, seen)
+			e.WriteString("=>")
+			fpValue(&e, it.Value(), depth+1, seen)
+			ents = append(ents, e.String())
+		}
+		sort.Strings(ents)
+		fmt.Fprintf(b, "map%d{%s}", len(ents), strings.Join(ents, ";"))
+	case reflect.Struct:
+		t := v.Type()
+		if t == syncMapType {
+			if !v.CanAddr() {
+				b.WriteString("<sync.Map>")
+				return
+			}
+			m := (*sync.Map)(unsafe.Pointer(v.UnsafeAddr()))
+			var ents []string
+			m.Range(func(k, val interface{}) bool {
+				var e strings.Builder
+				fpValue(&e, reflect.ValueOf(k), depth+1, seen)
+				e.WriteString("=>")
+				fpValue(&e, reflect.ValueOf(val), depth+1, seen)
+				ents = append(ents, e.String())
+				return true
+			})
+			sort.Strings(ents)
+			fmt.Fprintf(b, "syncmap%d{%s}", len(ents), strings.Join(ents, ";"))
+			return
+		}
+		if !fpOwnType(t) {
+			b.WriteString("<" + t.String() + ">")
+			return
+		}
+		b.WriteString("{")
+		for i := 0; i < v.NumField(); i++ {
+			fpValue(b, v.Field(i), depth+1, seen)
+			b.WriteString(";")
+		}
+		b.WriteString("}")
+	default: // func, chan, unsafe pointer, uintptr, complex
+		b.WriteString("<" + v.Kind().String() + ">")
+	}
 }
 
 // Epoch starts a new allocation epoch and returns its number. Objects
